@@ -376,7 +376,7 @@ func c13Scripted(r *eng.Run) {
 		f := frames[idx]
 		h, err := rd.NextFrame()
 		if idx == badIdx {
-			if _, ok := err.(ws.ProtocolError); !ok {
+			if !isRejection(err) {
 				r.Failf("rsv1_not_rejected", "frame %d (%s): RSV1 on a control/continuation frame gave %v, expected a protocol error", idx, frameStr(f), err)
 			}
 			return
@@ -406,7 +406,7 @@ func c13Scripted(r *eng.Run) {
 			if err != nil {
 				// The failure must be the bad frame, which must be inside this message.
 				if badIdx >= idx && badIdx < len(frames)-1 {
-					if _, ok := err.(ws.ProtocolError); !ok {
+					if !isRejection(err) {
 						r.Failf("rsv1_not_rejected", "frame %d (%s): RSV1 on a control/continuation frame gave %v, expected a protocol error", badIdx, frameStr(frames[badIdx]), err)
 					}
 					return
